@@ -6,6 +6,7 @@ all states `st` (any supply, any history) and all finite written values `v`.
 -/
 import CobaldVerif.Lemmas.Standardiser
 import CobaldVerif.Generated.Src
+import CobaldVerif.Generated.SrcStandardiser
 
 namespace Cobald.Props.C06
 open Cobald Cobald.ERat Cobald.Standardiser
@@ -178,6 +179,27 @@ theorem gen_clamp_eq (low v high : ERat) : Gen.clamp low v high = clamp low v hi
 /-- `_floor(n, base)` (`n // base * base`) as written in the source is the model's `floorTo` -/
 theorem gen_floor_eq (n g : Rat) : Gen.floor n g = floorTo n g := rfl
 
+/-! ### the source's `_clamp_demand`, demand setter, demand getter and constructor checks
+(`Generated/SrcStandardiser.lean`) -/
+
+/-- `_clamp_demand` as written in the source is the model's `cd` -/
+theorem gen_clamp_demand_eq (p : Params) (s v : Rat) : Gen.Standardiser.clampDemand p s v = cd p s v := rfl
+
+/-- the demand setter as written in the source stores and forwards what the model's `write` does -/
+theorem gen_write_eq (p : Params) (st : St) (v : Rat) :
+    (write p st v).stored = Gen.Standardiser.stored p st.pool.supply v ∧
+    (write p st v).pool.demand = Gen.Standardiser.forwarded p st.pool.supply v ∧
+    (write p st v).pool.supply = st.pool.supply := ⟨rfl, rfl, rfl⟩
+
+/-- the demand getter as written in the source is the model's `read` -/
+theorem gen_read_eq (p : Params) (st : St) :
+    Standardiser.read p st = ({ st with stored := (Gen.Standardiser.read p st.stored st.pool.demand).1 },
+                 (Gen.Standardiser.read p st.stored st.pool.demand).2) := by
+  unfold Standardiser.read Gen.Standardiser.read
+  split <;> simp_all
+
+/-- the constructor enforces exactly `Params.ok` -/
+theorem gen_ok_iff (p : Params) : Gen.Standardiser.ok p ↔ p.ok := Iff.rfl
 /-! ### every supply, the infinite ones included -/
 
 /-- at a finite supply the extended definitions are the ordinary ones -/
